@@ -30,7 +30,10 @@ def f32(x):
 AXES = dict(
     n=[16, 8, 15], shift=[(2, -1), (0, 0), (2, 0), (0, -1)], fill=[[1e-3], [1e-3, 2e-3], [1e-3, 0, 2e-3]], outstep=[2, 1, 3, 5], save=[1, 0, 2],
     rot=[1.0, 0.5, 1.375, 1.3, 0.7], imp=["collimator", "none", "csr"], track=[False, True], renorm=[0, -1, 2],
-    ring=["default", "R=5.559,H=184,V=1.4e6,E=2.5e9", "pq=10,F=2.7e6"])
+    ring=["default", "R=5.559,H=184,V=1.4e6,E=2.5e9", "pq=10,F=2.7e6"],
+    # how the run starts: the built-in Gaussian, a results file written beforehand, the same without any renormalisation
+    start=["builtin", "file", "file-norenorm"])
+STARTFILE = {}
 IMP = {"none": ["-G", 0], "collimator": ["-G", -0.03, "--UseCSR", "false", "--CollimatorRadius", 0.002], "csr": ["-G", -0.03]}
 FS = 9e5    # synchrotron frequency dialled so that the bucket spacing is 1.39 phase spaces (keeps the multi-bunch transform short)
 
@@ -52,7 +55,14 @@ def configs(tier):
                         c = dict(base)
                         c[k1], c[k2] = v1, v2
                         out.append(c)
-    return out
+    keep = []
+    for c in out:
+        if c["start"] != "builtin" and sum(1 for x in c["fill"] if x > 0) > 1:
+            continue      # a start file holds one bunch
+        if c["start"] == "file-norenorm":
+            c["renorm"] = -1
+        keep.append(c)
+    return keep
 
 
 def args_of(c, trackfile):
@@ -64,6 +74,8 @@ def args_of(c, trackfile):
         for kv in c["ring"].split(","):
             k, v = kv.split("=")
             a += [m[k], v]
+    if c.get("start", "builtin") != "builtin":
+        a += ["-i", STARTFILE[c["n"]]]
     if c["track"]:
         a += ["--tracking", trackfile, "--FPTrack", 1]
     a += ["-I"] + c["fill"]
@@ -286,6 +298,11 @@ def run(res, tier):
     with open(trackfile, "w") as f:
         f.write("0.5 0.3\n-1.0 0.2\n1.5 -0.7\n")
     cfgs = configs(tier)
+    for n in AXES["n"]:     # start files: an evolved, narrow distribution (not the built-in Gaussian) per grid size
+        r0 = pl.run(exe, ["-s", n, "-N", NPER, "-T", 0.625, "-n", 5, "--SavePhaseSpace", 1, "--padding", 2, "-f", FS, "-d", 2e-5, "--InitialDistZoom", 0.6, "-G", 0], wd, out="start%d.h5" % n)
+        STARTFILE[n] = r0["h5"]
+        if r0["rc"] != 0 or not os.path.exists(r0["h5"]):
+            res.violate("C10/start-file-run-failed", "start%d.h5" % n, r0["log"][-300:], replay=dict(cmd=r0["cmd"]))
     # one warm-up per distinct transform-length situation
     seen = set()
     warm = []
@@ -293,7 +310,7 @@ def run(res, tier):
         k = (c["n"], len(c["fill"]), c["imp"])
         if k not in seen:
             seen.add(k)
-            warm.append(args_of(dict(c, rot=0.125, track=False), trackfile))
+            warm.append(args_of(dict(c, rot=0.125, track=False, start="builtin"), trackfile))
     pl.warm(exe, warm, "c10warm")
     pl.warm(exe_hook, [conform.args_of(dict(last=1, outstep=1, h5save=1, wake=w, drf=False)) for w in (True, False)], "c10warmh")
     states, trans, traces = structure(res, tier, exe_hook)
